@@ -373,6 +373,30 @@ class RGen:
     # ---- statements
     def statement(self):
         kind = self.pick(['select'] * 6 + ['cte', 'insert', 'update', 'delete', 'create', 'insert-values'])
+        if kind == 'cte' and self.dn in ('mindsdb', 'int1') and self.chance(1, 3):
+            # one data integration + a CTE whose name equals the last name part of a project object that the main
+            # query also uses (qualified): the project object must still be routed to its project
+            self.tags.add('stmt:cte')
+            self.tags.add('pos:cte')
+            self.tags.add('cte:name-collides')
+            self.tags.add('shape:cte-collides-with-project-object')
+            obj = self.pick(['v1', 't1'] if self.dn != 'proj' else ['v1'])
+            t_a, t_b = self.pick(['t1', 't2']), self.pick(['t1', 't2'])
+            q = self.spell('int1')
+            self.refs.append(['read', 'table', 'int1', [t_a]])
+            self.refs.append(['read', 'table', 'int1', [t_b]])
+            self.refs.append(['read', 'table', 'proj', [obj]])
+            self.ctes.append(obj)
+            pq = self.spell('proj')
+            if self.chance(1, 2):
+                main = (f'SELECT x.a, y.b FROM {q}.{t_b} AS x JOIN {pq}.{obj} AS y ON x.a = y.a '
+                        f'{self.pick(["", "WHERE x.a > 1", "LIMIT 3"])}')
+            else:
+                main = f'SELECT x.a FROM {q}.{t_b} AS x WHERE x.a IN (SELECT y.a FROM {pq}.{obj} AS y)'
+            use_cte = self.chance(1, 2)
+            if use_cte:
+                main = main.replace(' AS x', f' AS x JOIN {obj} AS z ON x.a = z.a', 1) if ' JOIN ' in main else main
+            return f'WITH {obj} AS (SELECT * FROM {q}.{t_a}) {main}'.strip()
         self.tags.add('stmt:' + kind)
         if kind == 'select':
             return self.select(2)
@@ -382,8 +406,18 @@ class RGen:
             for i in range(self.draw(st.integers(1, 2))):
                 body = self.select(1, top=False) if self.chance(1, 2) else \
                     f'SELECT * FROM {self.data_ref()}{self.pick(["", " WHERE a > 1"])}'
-                parts.append(f'cte{i} AS ({body})')
-                self.ctes.append(f'cte{i}')
+                # the CTE name sometimes equals the (last part of the) name of a table / view / model that lives
+                # elsewhere: `WITH v1 AS (...) ... JOIN proj.v1` must still route proj.v1 to the project
+                cname = f'cte{i}'
+                # (only names that are never written unqualified under this default namespace, so that scoping of the
+                # CTE name cannot capture a real table reference)
+                cand = [n for n in (('v1',) if self.dn != 'proj' else ()) + (('v2',) if self.dn != 'mindsdb' else ())
+                        + ('t3',) if n not in self.ctes]
+                if cand and self.chance(1, 4):
+                    cname = self.pick(cand)
+                    self.tags.add('cte:name-collides')
+                parts.append(f'{cname} AS ({body})')
+                self.ctes.append(cname)
             if self.chance(1, 3):
                 al = self.alias('x')
                 main = f'SELECT {al}.a FROM {self.pick(self.ctes)} AS {al}{self.conds([al + ".a"], True, 1)}'
